@@ -594,6 +594,14 @@ func condIsHeaderEmpty(cond ssa.Value, key string) int {
 		return 0
 	}
 	oc := originCall(other)
+	if oc != nil && ir.CallName(oc) != "(net/http.Header).Get" {
+		// an accessor that returns the header value untouched (sessionIDOf(r))
+		if sc := ir.StaticCallee(oc); sc != nil && sc.Blocks != nil && len(sc.Blocks) == 1 {
+			if ret, ok := sc.Blocks[0].Instrs[len(sc.Blocks[0].Instrs)-1].(*ssa.Return); ok && len(ret.Results) == 1 {
+				oc = originCall(ret.Results[0])
+			}
+		}
+	}
 	if oc == nil || ir.CallName(oc) != "(net/http.Header).Get" {
 		return 0
 	}
@@ -1648,6 +1656,13 @@ func (x *c04ctx) idOpaque() {
 						}
 					case *ssa.Index, *ssa.IndexAddr, *ssa.Range, *ssa.Slice:
 						bad = "looks at its characters at " + c.Pos(r.Pos())
+					case *ssa.Return:
+						// an accessor hands the value to its callers
+						for _, e := range ir.Callers(c.G, f) {
+							if site, ok := e.Site.(*ssa.Call); ok && c.P.IsLib(e.Caller.Func) {
+								visit(e.Caller.Func, site, d+1)
+							}
+						}
 					}
 				}
 			}
@@ -1656,7 +1671,7 @@ func (x *c04ctx) idOpaque() {
 				sprintf("%s reads the Mcp-Session-Id request header and %s: whether a request with a never-issued id is refused with 404 (unknown session) or something else then depends on how the id is spelled, and a server in stateless mode lets a header it must ignore decide about the request", fname(fn), bad))
 		})
 	}
-	if n < 2 {
-		c.R.Break("R-id-opaque: only %d reads of the Mcp-Session-Id request header found", n)
+	if n < 1 {
+		c.R.Break("R-id-opaque: no read of the Mcp-Session-Id request header found")
 	}
 }
